@@ -2,7 +2,14 @@
 //! line-oriented case files for the Coq model (extracted OCaml / in-Coq vm_compute) to replay.
 mod c01;
 mod c03;
+mod c04;
+mod c06;
+mod c11;
+mod c20;
+mod c12;
+mod c13;
 mod c14;
+mod c15;
 mod c16;
 mod c18;
 mod corpus;
@@ -42,6 +49,13 @@ fn main() {
         "c18" => c18::run(seed, tier, &mut w),
         "c03" => c03::run(seed, tier, &mut w),
         "c16" => c16::run(seed, tier, &mut w),
+        "c04" => c04::run(seed, tier, &mut w),
+        "c12" => c12::run(seed, tier, &mut w),
+        "c13" => c13::run(seed, tier, &mut w),
+        "c15" => c15::run(seed, tier, &mut w),
+        "c06" => c06::run(seed, tier, &mut w),
+        "c11" => c11::run(seed, tier, &mut w),
+        "c20" => c20::run(seed, tier, &mut w),
         _ => {
             eprintln!("unknown property {}", prop);
             std::process::exit(2);
